@@ -27,6 +27,9 @@ double __CPROVER_uninterpreted_fadd(double, double);
 #define UF_DIV(a, b) __CPROVER_uninterpreted_fdiv(a, b)
 #define UF_MUL(a, b) __CPROVER_uninterpreted_fmul(a, b)
 #define UF_ADD(a, b) __CPROVER_uninterpreted_fadd(a, b)
+/* fabs / abs on an entry (e.g. a tolerance test on the pivot): uninterpreted as well -- the specification compares the pivot with zero exactly */
+double __CPROVER_uninterpreted_fabs(double);
+#define UF_FABS(a) __CPROVER_uninterpreted_fabs(a)
 
 /* Matrix4<T>::Matrix4(): the identity (decided by group Vector.Matrix4<int64_t>.ctor on the same text) */
 static inline void Matrix4_identity(Matrix4* p)
